@@ -236,3 +236,30 @@ func Main(table map[string]func()) error {
 	b, _ := json.MarshalIndent(out, "", " ")
 	return os.WriteFile(os.Getenv("VERIF_OUT"), b, 0o644)
 }
+
+// AnyString is a string of n arbitrary bytes.
+func AnyString(name string, n int) string {
+	b := make([]byte, n)
+	for i := range b {
+		b[i] = byte(anyI(fmt.Sprintf("%s[%d]", name, i)))
+	}
+	return string(b)
+}
+
+// FloatString is a string denoting an arbitrary result of strconv.ParseFloat(s, 64): under the
+// engine the (value, error) pair is symbolic, constrained only by the documented contract; natively
+// it is a string that parses to exactly the model's pair.
+func FloatString(name string) string {
+	f := AnyFloat64(name + ".f")
+	isErr := AnyBool(name + ".err")
+	if isErr {
+		switch {
+		case math.IsInf(f, 1):
+			return "1e999"
+		case math.IsInf(f, -1):
+			return "-1e999"
+		}
+		return "x"
+	}
+	return strconv.FormatFloat(f, 'g', -1, 64)
+}
